@@ -173,33 +173,38 @@ def exec1 (s : St) (k : Key) (op : Op1) : St × Reply :=
   let r := slot1 op (NMap.get s k)
   (put s k r.1, r.2)
 
-/-- two-key commands as the real executor runs them: on ONE store -/
-def exec2 (s : St) (k1 k2 : Key) (op : Op2) : St × Reply :=
+/-- the slot-level meaning of a two-key command as the real executor runs it on ONE store:
+    (same key?, old source slot, old destination slot) ↦ (new source slot, new destination slot,
+    reply).  The destination is written last. -/
+def slot2 (op : Op2) (same : Bool) (oa ob : Option SVal) : Option SVal × Option SVal × Reply :=
   match op with
   | .rename =>
-    match NMap.get s k1 with
-    | none => (s, .one (.err errNoSuchKey))
-    | some v => (NMap.insert k2 v (NMap.erase k1 s), .one .ok)
+    match oa with
+    | none => (oa, ob, .one (.err errNoSuchKey))
+    | some v => (none, some v, .one .ok)
   | .renamenx =>
-    match NMap.get s k1 with
-    | none => (s, .one (.err errNoSuchKey))
-    | some v =>
-      if (NMap.get s k2).isSome then (s, .one (.int 0))
-      else (NMap.insert k2 v (NMap.erase k1 s), .one (.int 1))
+    match oa with
+    | none => (oa, ob, .one (.err errNoSuchKey))
+    | some v => if ob.isSome then (oa, ob, .one (.int 0)) else (none, some v, .one (.int 1))
   | .rpoplpush =>
-    match NMap.get s k1 with
-    | none => (s, .one .nil)
-    | some (.str _) => (s, wrongType)
+    match oa with
+    | none => (oa, ob, .one .nil)
+    | some (.str _) => (oa, ob, wrongType)
     | some (.list l) =>
       match l.getLast? with
-      | none => (s, .one .nil)
+      | none => (oa, ob, .one .nil)
       | some x =>
         -- source popped (and removed when empty) BEFORE the destination is looked at
-        let s1 := if l.dropLast.isEmpty then NMap.erase k1 s else NMap.insert k1 (.list l.dropLast) s
-        match NMap.get s1 k2 with
-        | none => (NMap.insert k2 (.list [x]) s1, .one (.bulk x))
-        | some (.list d) => (NMap.insert k2 (.list (x :: d)) s1, .one (.bulk x))
-        | some (.str _) => (s1, wrongType)
+        let na := if l.dropLast.isEmpty then none else some (SVal.list l.dropLast)
+        let ob' := if same then na else ob
+        match ob' with
+        | none => (na, some (.list [x]), .one (.bulk x))
+        | some (.list d) => (na, some (.list (x :: d)), .one (.bulk x))
+        | some (.str _) => (na, ob', wrongType)
+
+def exec2 (s : St) (k1 k2 : Key) (op : Op2) : St × Reply :=
+  let r := slot2 op (k1 == k2) (NMap.get s k1) (NMap.get s k2)
+  (put (put s k1 r.1) k2 r.2.1, r.2.2)
 
 /-! key codes ↔ bytes (the inverse of `Driver.keyCode`), for glob matching -/
 
